@@ -126,7 +126,20 @@ impl Finalize for Node {
             return;
         }
         ev!("F{}:{}", self.id, b01(is_tracing()));
-        // C05 oracle: everything reachable from a finalizing object is still undropped
+        let _cb = InCallback::enter_fd();
+        // C05 oracles: at most once per arming; never with the feature off; everything reachable from a
+        // finalizing object is still undropped
+        {
+            let mut fc = it.fin_counts.borrow_mut();
+            let e = fc.entry(self.id).or_insert((0, 0));
+            e.0 += 1;
+            if e.0 > 1 + e.1 {
+                ev!("!fin-twice:{}", self.id);
+            }
+        }
+        if !it.feat.fin {
+            ev!("!fin-without-feature:{}", self.id);
+        }
         it.check_reachable_alive(self, "F");
         if tick(&it.f_fin) {
             raise_logged();
@@ -150,11 +163,38 @@ impl Drop for Node {
             return;
         }
         ev!("D{}:{}", self.id, b01(is_tracing()));
+        let _cb = InCallback::enter_fd();
         self.canary.set(DEAD);
         if tick(&it.f_drop) {
             raise_logged();
         }
         it.run_script(self.drp, Some(self as *const Node), None);
+    }
+}
+
+/// Marks a finalizer / destructor / cleaning action as running (also while it unwinds).
+struct InCallback(bool);
+impl InCallback {
+    fn enter() -> InCallback {
+        let it = it();
+        it.cb_depth.set(it.cb_depth.get() + 1);
+        InCallback(false)
+    }
+    /// a finalizer or destructor of a payload value (the collector flags are certainly set)
+    fn enter_fd() -> InCallback {
+        let it = it();
+        it.cb_depth.set(it.cb_depth.get() + 1);
+        it.fd_depth.set(it.fd_depth.get() + 1);
+        InCallback(true)
+    }
+}
+impl Drop for InCallback {
+    fn drop(&mut self) {
+        let it = it();
+        it.cb_depth.set(it.cb_depth.get() - 1);
+        if self.0 {
+            it.fd_depth.set(it.fd_depth.get() - 1);
+        }
     }
 }
 
@@ -221,6 +261,13 @@ pub struct Interp {
     wc_stack: RefCell<Vec<*const Weak<Node>>>,
     stash: RefCell<HashMap<usize, Vec<Cc<Node>>>>,
     wstash: RefCell<HashMap<usize, Vec<Weak<Node>>>>,
+    /// finalize calls / re-arms per object, cleaning-action runs per action (C05 / C10 oracles)
+    fin_counts: RefCell<HashMap<usize, (usize, usize)>>,
+    action_runs: RefCell<HashMap<usize, usize>>,
+    /// number of finalizer / destructor / cleaning-action callbacks currently running
+    cb_depth: Cell<usize>,
+    /// number of `Finalize::finalize` / `Drop::drop` callbacks of payload values currently running
+    fd_depth: Cell<usize>,
 }
 
 thread_local! {
@@ -284,6 +331,10 @@ impl Interp {
             wc_stack: RefCell::new(Vec::new()),
             stash: RefCell::new(HashMap::new()),
             wstash: RefCell::new(HashMap::new()),
+            fin_counts: RefCell::new(HashMap::new()),
+            action_runs: RefCell::new(HashMap::new()),
+            cb_depth: Cell::new(0),
+            fd_depth: Cell::new(0),
         }
     }
 
@@ -627,7 +678,12 @@ impl Interp {
                     let mut h = self.h.borrow_mut();
                     match h.get_mut(*k).and_then(|e| e.as_mut()) {
                         Some(cc) => {
+                            let id = cc.id;
                             cc.finalize_again();
+                            self.fin_counts.borrow_mut().entry(id).or_insert((0, 0)).1 += 1;
+                            if self.fd_depth.get() > 0 {
+                                ev!("!finagain-in-callback:{}", id);
+                            }
                             Ret::Ok
                         }
                         None => Ret::Skip,
@@ -646,7 +702,16 @@ impl Interp {
                 };
                 let Some(cc) = taken else { return Ret::Skip };
                 let id = cc.id;
-                match Cc::try_unwrap(cc) {
+                // C13 oracle: Ok exactly when the pointer is unique and no finalizer / destructor / action is running
+                // (inside a cleaning action alone the expectation depends on who runs the action: not asserted)
+                let unique = cc.strong_count() == 1;
+                let must_ok = unique && self.cb_depth.get() == 0;
+                let must_err = !unique || self.fd_depth.get() > 0;
+                let res = Cc::try_unwrap(cc);
+                if (must_ok && res.is_err()) || (must_err && res.is_ok()) {
+                    ev!("!unwrap-wrong:{}:{}", id, if must_ok { "err-but-unique" } else { "ok-but-shared-or-in-callback" });
+                }
+                match res {
                     Ok(node) => {
                         node.moved.set(true);
                         if node.canary.get() != ALIVE {
@@ -758,10 +823,16 @@ impl Interp {
                     alloc::set_tag(m, Tag::Meta(id));
                 }
             }
+            if weak.strong_count() != 0 || weak.upgrade().is_some() {
+                ev!("!cyclic-alive-inside:{}", id);
+            }
             if tick(&self.f_body) {
                 raise_logged();
             }
             self.run_script(body, None, Some(weak as *const Weak<Node>));
+            if weak.strong_count() != 0 {
+                ev!("!cyclic-alive-inside:{}", id);
+            }
             let node = self.make_node(id, sp);
             if let Some(i) = selfw {
                 if let Some(cell) = node.wslots.get(i) {
@@ -776,6 +847,9 @@ impl Interp {
             let snap = hooks::snapshot(&cc);
             if n.id != id {
                 ev!("!newcyc-id:{}", n.id);
+            }
+            if cc.strong_count() != 1 {
+                ev!("!cyclic-count:{}", id);
             }
             let mut r = self.registry.borrow_mut();
             if let Some(Some(b)) = r.get_mut(id) {
@@ -889,7 +963,22 @@ impl Interp {
                 self.put_h(k, cc);
                 Ret::Some(id)
             }
-            Some(None) => Ret::None,
+            Some(None) => {
+                // C08 oracle: None although the program holds a Cc to that very allocation whose value is intact
+                let target = self.with_wsel(ctx, w, |weak| if is_dangling(weak) { None } else { Some(hooks::weak_box_addr(weak)) }).flatten();
+                if let Some(addr) = target {
+                    let held = self.h.borrow().iter().flatten().any(|cc| hooks::snapshot(cc).box_addr == addr)
+                        || self.stash.borrow().values().any(|v| v.first().map(|cc| hooks::snapshot(cc).box_addr == addr).unwrap_or(false));
+                    if held {
+                        if let Some(id) = self.id_of_box(addr) {
+                            if self.info(id).map(|b| self.value_alive(&b)).unwrap_or(false) {
+                                ev!("!up-none-live:{}", id);
+                            }
+                        }
+                    }
+                }
+                Ret::None
+            }
             None => Ret::Skip,
         }
     }
@@ -994,6 +1083,15 @@ impl Interp {
             let it = it();
             let _captured = guard;
             ev!("K{}:{}", info2.aid.get().map(|a| a as i64).unwrap_or(-1), b01(is_tracing()));
+            let _cb = InCallback::enter();
+            if let Some(a) = info2.aid.get() {
+                let mut ar = it.action_runs.borrow_mut();
+                let e = ar.entry(a).or_insert(0);
+                *e += 1;
+                if *e > 1 {
+                    ev!("!action-twice:{}", a);
+                }
+            }
             if tick(&it.f_act) {
                 raise_logged();
             }
@@ -1057,7 +1155,23 @@ impl Interp {
     pub fn exec_top(&self, op: &Op) -> String {
         alloc::with_tracker(|t| t.events.clear());
         let ctx = Ctx { selfp: None, wc: None };
+        let execs_before = state::executions_count().unwrap_or(0);
         let res = catch_unwind(AssertUnwindSafe(|| self.exec_op(op, &ctx)));
+        // C11 / C12 oracle: an explicit collect_cycles() on an idle collector starts exactly one collection
+        // (nested requests are no-ops); no other operation but allocation may start one, and at most one
+        let execs_after = state::executions_count().unwrap_or(0);
+        let delta = execs_after.wrapping_sub(execs_before);
+        match op {
+            Op::Collect => {
+                if delta != 1 {
+                    ev!("!execs:collect:{}", delta);
+                }
+            }
+            _ => {}
+        }
+        if is_tracing() || self.cb_depth.get() != 0 {
+            ev!("!not-idle-after-op");
+        }
         let ret = match res {
             Ok(r) => r.str(),
             Err(_) => {
